@@ -212,6 +212,10 @@ def _c05_stream_level(ctx: Ctx, r) -> None:
                 want += ["S" + stmt_text(gen.normalize_stmt(Quad(*t, gid))) for t in triples]
             if r.random() < 0.3:
                 ops.append(("flush",))
+                if r.random() < 0.4:
+                    # every frame a self-describing message: the (identical) options row again at the head of the next frame
+                    # (Stream.stream_options() is public); the writer's tables carry on, so must the reader's
+                    ops.append(("opts",))
         ops.append(("flush",))
         line = impl.run_step("G", o, ops)
         reqs.append(f"step G {o.token()} " + " ".join(impl.step_op_token(op) for op in ops))
@@ -1358,6 +1362,8 @@ def check_C06(ctx: Ctx) -> None:
     # rdflib entry points: Graph.serialize through the plugin (explicit stream of every class, inferred and explicit
     # flows, both framings), rdflib flat_/grouped_stream_to_file
     _c06_rdflib(ctx, r)
+    _c06_rdflib_arity(ctx, ctx.rng("arity"))
+    _c06_big_inputs(ctx, ctx.rng("big"))
     _c06_short_writes(ctx, ctx.rng("short-writes"))
     # sink.serialize / sink.parse
     for _ in range(ctx.n(60, 600)):
@@ -1450,6 +1456,104 @@ def _c06_short_writes(ctx: Ctx, r) -> None:
             ctx.fail(f"{how} returned normally although the output stream took only part of the data ({len(out.data)} bytes written)",
                      dict(entry=how, delimited=delim, write_limit=limit, opts=o.describe(), statements=stmts_text(stmts)[:1500],
                           got=str(got)[:300]))
+
+
+def _c06_big_inputs(ctx: Ctx, r) -> None:
+    """Inputs that leave tens of thousands of rows in the flow when the input ends (non-delimited output, a frame size larger
+    than the input, one huge graph under a grouped flow): one final call must drain the flow whatever its size."""
+    import rimpl
+    from pyjelly.integrations.generic import serialize as gser
+
+    n = 24000 if ctx.quick() else 60000   # three rows per statement (two new names each): > 65536 / > 131072 rows
+    stmts = [Triple(IRI(f"http://big.example/s{i}"), IRI("http://big.example/p"), IRI(f"http://big.example/o{i}")) for i in range(n)]
+    configs = [("generic stream_frames, non-delimited", "T", Opts(fs=250, lt=1, gen=True, star=True, delim=False, pn=4000, pp=8, pd=8)),
+               ("generic stream_frames, frame_size larger than the input", "T", Opts(fs=10**6, lt=1, gen=True, star=True, delim=True, pn=4000, pp=8, pd=8))]
+    if not ctx.quick():
+        configs.append(("generic stream_frames, one graph under a graphs flow", "T", Opts(fs=250, lt=3, gen=True, star=True, delim=True, pn=4000, pp=8, pd=8)))
+    for label, cls, o in configs:
+        stream, _ = impl.make_stream(cls, o)
+        try:
+            frames = list(gser.stream_frames(stream, (x for x in stmts)))
+        except Exception as e:  # noqa: BLE001
+            ctx.dist["big_input_refused:" + type(e).__name__] += 1
+            continue
+        b = impl.frames_bytes(frames, o.delim)
+        rows = sum(len(f.rows) for f in frames)
+        ctx.case(("big-input", label, n), True, sample=dict(entry=label, statements=n, rows=rows, frames=len(frames)))
+        ctx.dist["big_inputs"] += 1
+        from pyjelly.integrations.generic.parse import parse_jelly_flat as _pf
+        try:
+            got = sum(1 for _ in _pf(io.BytesIO(b)))
+        except Exception:  # noqa: BLE001
+            got = -1
+        if len(stream.flow) or got != n:
+            ctx.fail(f"{label}: {n} statements handed in, {got} in the bytes written, {len(stream.flow)} rows left in the flow after the call returned",
+                     dict(opts=o.describe(), statements=n, rows_written=rows))
+    if not ctx.quick():
+        import rdflib
+        g = rdflib.Graph()
+        for st in stmts[:40000]:
+            g.add(tuple(rimpl.to_rdflib(t) for t in st))
+        o = Opts(fs=250, lt=1, gen=False, star=False, delim=False, pn=4000, pp=8, pd=8)
+        try:
+            b = rimpl.plugin_serialize(g, options=o.real())
+            back = rdflib.Graph()
+            back.parse(data=b, format="jelly")
+            ctx.case(("big-input", "rdflib plugin non-delimited"), True)
+            if len(back) != len(g):
+                ctx.fail(f"rdflib Graph.serialize, non-delimited: {len(g)} triples handed in, {len(back)} read back", dict(opts=o.describe()))
+        except Exception as e:  # noqa: BLE001
+            ctx.dist["big_input_refused:" + type(e).__name__] += 1
+
+
+def _c06_rdflib_arity(ctx: Ctx, r) -> None:
+    """The rdflib entry points handed statements of the wrong arity for the stream (triples reaching a QuadStream): a
+    combination that cannot be honoured must raise; returning normally with an empty or cut-off file is the violation."""
+    import rdflib
+
+    import rimpl
+    from pyjelly.integrations.rdflib import serialize as rser
+
+    def check(label, run, want_triples):
+        out = io.BytesIO()
+        try:
+            run(out)
+        except Exception as e:  # noqa: BLE001
+            ctx.dist["rdflib_arity_refused:" + type(e).__name__] += 1
+            return
+        b = out.getvalue()
+        back, err = rimpl.run_par_graph("seek", b) if b else (None, "nothing written")
+        got = sorted(set(",".join(_norm_text(t).split(",")[:3]) for t in rimpl.store_quads(back))) if back is not None and not err else []
+        if got != want_triples:
+            ctx.fail(f"rdflib {label}: the call returned normally but the file holds {len(got)} of {len(want_triples)} statements ({err or 'parses'})",
+                     dict(entry=label, written=len(b), got=got[:5], want=want_triples[:5]))
+
+    for i in range(ctx.n(20, 200)):
+        o = Opts(fs=r.choice([1, 2, 250]), lt=r.choice([0, 2]), gen=False, star=False, delim=r.random() < 0.7, pn=16, pp=8, pd=8)
+        triples = _rdf11_statements(r, "T", o, r.randint(2, 6))
+        quads = _rdf11_statements(r, "Q", o, r.randint(2, 6))
+        if not triples or not quads:
+            continue
+        want_t = sorted(set(",".join(_norm_text(stmt_text(gen.normalize_stmt(st))).split(",")[:3]) for st in triples))
+        graph = _to_store(triples, "T")
+        ctx.case(("rdflib-arity", stmts_text(triples), stmts_text(quads)), True)
+        ctx.dist["rdflib_arity_cases"] += 1
+        # (1) a Graph written through a ready-made QuadStream / GraphStream handed to the plugin
+        for cls in "QG":
+            stream, opts = rimpl.make_stream(cls, o)
+            check(f"Graph.serialize(stream=<{cls} stream>)", lambda out, stream=stream, opts=opts: out.write(rimpl.plugin_serialize(graph, options=opts, stream=stream)), want_t)
+        # (2) flat_stream_to_file over quads with one 3-term statement in the middle
+        items = [rimpl.rparse.Quad(*(rimpl.to_rdflib(t) for t in st)) for st in quads]
+        k = r.randrange(1, len(items) + 1)
+        mixed = items[:k] + [rimpl.rparse.Triple(*(rimpl.to_rdflib(t) for t in triples[0]))] + items[k:]
+        want_m = sorted(set(",".join(_norm_text(stmt_text(gen.normalize_stmt(st))).split(",")[:3]) for st in quads + [triples[0]]))
+        oq = Opts(**{**o.__dict__})
+        oq.lt = 2
+        check("flat_stream_to_file(quads with one triple among them)", lambda out, mixed=mixed, oq=oq: rser.flat_stream_to_file((x for x in mixed), out, oq.real()), want_m)
+        # (3) grouped_stream_to_file: a Dataset first (the stream becomes a QuadStream), a Graph later
+        ds = _to_store(quads, "Q")
+        want_g = sorted(set(",".join(_norm_text(stmt_text(gen.normalize_stmt(st))).split(",")[:3]) for st in quads + triples))
+        check("grouped_stream_to_file([Dataset, Graph])", lambda out, ds=ds: rser.grouped_stream_to_file((x for x in [ds, graph]), out), want_g)
 
 
 def _c06_rdflib(ctx: Ctx, r) -> None:
@@ -1560,7 +1664,34 @@ def _c06_rdflib(ctx: Ctx, r) -> None:
 # C07
 # ---------------------------------------------------------------------------------------------
 
+def _c07_metadata_only_first_frame(ctx: Ctx) -> None:
+    """A delimited stream that BEGINS with a frame carrying only metadata (no rows), of 8..12 bytes: the flat parse must be that
+    of the remaining frames. At exactly 10 bytes the stream starts `0A 7A`, which is also how a non-delimited frame whose first
+    row is 122 bytes long starts: the detector answers "non-delimited" (known finding, inherent in the heuristic)."""
+    rows = [jelly.RdfStreamRow(options=jelly.RdfStreamOptions(physical_type=1, max_name_table_size=8, max_prefix_table_size=0,
+                                                              max_datatype_table_size=0, version=1)),
+            jelly.RdfStreamRow(triple=jelly.RdfTriple(s_bnode="a", p_bnode="b", o_bnode="c"))]
+    tail = jelly.RdfStreamFrame(rows=rows)
+    want = impl.run_par("flat", False, "seek", refenc.frames_to_bytes([tail], True))
+    reqs, resp = [], []
+    for extra in range(0, 5):
+        head = jelly.RdfStreamFrame()
+        head.metadata["k"] = b"m" * (1 + extra)
+        b = refenc.frames_to_bytes([head, tail], True)
+        size = head.ByteSize()
+        got = impl.run_par("flat", False, "seek", b)
+        reqs.append(f"par flat 0 1 seek {b.hex()}")
+        resp.append(got)
+        ctx.case(("metadata-only-first-frame", size), True)
+        ctx.dist["metadata_only_first_frame"] += 1
+        if got != want:
+            ctx.fail(f"a leading metadata-only frame of {size} bytes changes the flat parse ({got[-40:]})", dict(bytes=b.hex(), first_frame_bytes=size),
+                     known="C07-metadata-only-first-frame-of-10-bytes" if size == 10 and b[:2] == b"\x0a\x7a" else None)
+    ctx.corr("PARSE", reqs, resp)
+
+
 def check_C07(ctx: Ctx) -> None:
+    _c07_metadata_only_first_frame(ctx)
     from contextvars import ContextVar
 
     from pyjelly.integrations.generic.parse import parse_jelly_grouped
@@ -2215,7 +2346,7 @@ def check_C13(ctx: Ctx) -> None:
     names = ["", "s", "näme-ü", "日本", "x" * 5, "x" * 6, "x" * 7, "\x00", "a b", "é" * 60]
     for i in range(ctx.n(300, 3000)):
         cls = r.choice("TQG")
-        o = rand_opts(r, cls, lt=r.choice(gen.LOGICAL), explicit_flow=r.random() < 0.1)
+        o = rand_opts(r, cls, lt=r.choice(gen.LOGICAL), explicit_flow=r.random() < 0.25)
         o.name = r.choice(names)
         o.gen, o.star, o.ns = r.random() < 0.5, r.random() < 0.5, r.random() < 0.4
         o.pn = r.choice([8, 9, 127, 128, 4000, 4096, 5000])
@@ -2237,7 +2368,17 @@ def check_C13(ctx: Ctx) -> None:
         stream, _ = impl.make_stream(cls, o)
         # a logical type the caller asked for is the one the reader must be told (independent of how the flow is inferred);
         # only when none was requested (or an explicit flow object carries its own) is the stream's resolved type used
-        want_lt = o.lt if (o.flow is None and o.lt != 0) else int(stream.stream_types.logical_type)
+        if o.flow is not None:
+            # an explicit flow object decides: the logical type it was built with, else the one of its class (computed here,
+            # not read off the stream under test)
+            want_lt = o.flow[1] or {"manual": 0, "bounded": 0, "flatTriples": 1, "flatQuads": 2, "graphs": 3, "datasets": 4}[o.flow[0]]
+            ctx.dist["header:explicit-flow"] += 1
+            if want_lt and not _pair_ok(phys, want_lt):
+                ctx.fail(f"a stream of physical type {phys} given a flow object of logical type {want_lt} (a forbidden pair) was written instead of refused",
+                         dict(request=reqs[-2], header=opt_line))
+                continue
+        else:
+            want_lt = o.lt if o.lt != 0 else int(stream.stream_types.logical_type)
         want = (f"pt={phys} lt={want_lt} n={o.pn} p={o.pp} d={o.pd} name={hx(o.name)} "
                 f"gen={'true' if o.gen else 'false'} star={'true' if o.star else 'false'} v={2 if o.ns else 1} "
                 f"delim={'true' if o.delim else 'false'} nd={'true' if o.ns else 'false'}")
@@ -2338,6 +2479,26 @@ def check_C13(ctx: Ctx) -> None:
                         ctx.fail(f"rdflib strict {entry} parser {'accepts' if ok else 'rejects'} logical type {lt}", dict(bytes=rb.hex()))
                     if not strict and not ok:
                         ctx.fail(f"rdflib non-strict {entry} parser rejects logical type {lt}", dict(bytes=rb.hex()))
+            # the flat parsers called with a header that was read before (`frames=`, `options=`: the form parse_jelly_to_graph
+            # uses): the strict gate must not depend on who read the header
+            from pyjelly.integrations.generic import parse as gparse
+            from pyjelly.integrations.rdflib import parse as rparse
+            from pyjelly.parse.ioutils import get_options_and_frames
+            for integ, mod, data in (("generic", gparse, b), ("rdflib", rparse, rb)):
+                for strict in (True, False):
+                    try:
+                        src = io.BytesIO(data)
+                        opts_, frames_ = get_options_and_frames(src)
+                        n_ev = sum(1 for _ in mod.parse_jelly_flat(src, frames=frames_, options=opts_, logical_type_strict=strict))
+                        ok = True
+                    except Exception:  # noqa: BLE001
+                        ok = False
+                    ctx.case(("pre-read-gate", integ, lt, phys, strict), True)
+                    ctx.dist["strict_gate_cases_pre_read_header"] += 1
+                    if strict and ok != (lt in (1, 2)):
+                        ctx.fail(f"{integ} strict flat parser given a pre-read header {'accepts' if ok else 'rejects'} logical type {lt}", dict(bytes=data.hex()))
+                    if not strict and not ok:
+                        ctx.fail(f"{integ} non-strict flat parser given a pre-read header rejects logical type {lt}", dict(bytes=data.hex()))
     # forbidden pairs / small name table / oversized tables / new version on read
     for phys, lt in itertools.product(range(0, 4), gen.LOGICAL):
         row = jelly.RdfStreamRow(options=jelly.RdfStreamOptions(physical_type=phys, logical_type=lt, max_name_table_size=8, version=1))
